@@ -444,14 +444,16 @@ impl Wal {
 
 		self.active_writer.sync()?;
 
-		// Update the log number
-		self.active_log_number += 1;
+		let new_log_number = old_log_number + 1;
 
-		log::debug!("WAL rotating: {:020} -> {:020}", old_log_number, self.active_log_number);
+		log::debug!("WAL rotating: {:020} -> {:020}", old_log_number, new_log_number);
 
-		// Create a new Writer and sync fd for the new log number
-		let (new_writer, new_sync_fd) =
-			Self::create_writer(&self.dir, self.active_log_number, &self.opts)?;
+		// Create a new Writer and sync fd for the new log number. The log
+		// number moves together with the writer: if the new segment cannot
+		// be created, appends keep going to the old segment and must keep
+		// being accounted to it.
+		let (new_writer, new_sync_fd) = Self::create_writer(&self.dir, new_log_number, &self.opts)?;
+		self.active_log_number = new_log_number;
 		self.active_writer = new_writer;
 		self.sync_fd = new_sync_fd;
 
